@@ -30,6 +30,8 @@ type RunCfg struct {
 	PoolAny     bool           `json:"pool_any"`
 	TimerRace   bool           `json:"timer_race"`
 	SwitchBound int            `json:"switch_bound"`
+	Stall       bool           `json:"stall"`      // explore: a preempted goroutine stays stopped until all others are at rest
+	StallSpan   int            `json:"stall_span"` // ... and may stay stopped across this many further Quiesce points of the harness
 	Shards      int            `json:"shards"`
 	ShardDepth  int            `json:"shard_depth"`
 	CrossSolver string         `json:"cross_solver"`
@@ -154,6 +156,8 @@ type VM struct {
 	lzRoot    *ssa.Function
 	lz        *lazyState
 	switches  int
+	stallSpanUsed int
+	mainKeepOK    bool
 }
 
 type inputRec struct {
